@@ -82,6 +82,7 @@ def frame(seed, n=30):
     from ..rtc.gen import _cover
     d = pd.DataFrame({"y": rng.normal(size=n), "x": rng.normal(size=n) + 2, "f": _cover(rng, ["a", "b", "c", "d"], n),
                       "g": _cover(rng, ["u", "v"], n), "k": _cover(rng, [3, 1, 2, 10], n)})
+    d["z"] = rng.uniform(1, 4, size=n)
     d["c1"] = pd.Categorical(d["f"], categories=["c", "a", "d", "b"])
     d["o"] = pd.Categorical(d["f"], categories=["d", "b", "a", "c"], ordered=True)
     return d
@@ -105,9 +106,10 @@ def option_checks(d, max_perm_levels):
         perms = list(itertools.permutations(lvset[var]))
         if max_perm_levels < 4:
             perms = perms[:: max(1, len(perms) // 8)]
-        for order in [None] + perms:
-            lv = None if order is None else list(order)
-            eff = natural[var] if lv is None else lv
+        for oi, order in enumerate([None] + perms):
+            # (a declared order is a sequence: lists and tuples alike - every other permutation is handed over as a tuple)
+            lv = None if order is None else (list(order) if oi % 2 else tuple(order))
+            eff = natural[var] if lv is None else list(lv)
             vals = d[var].astype(object).values
             for spelling, kind, ref_i in (("C({v}{L})", "T", 0), ("T({v}{L})", "T", 0), ("S({v}{L})", "S", len(eff) - 1),
                                           ("C({v}, Sum{L})", "S", len(eff) - 1), ("C({v}, Treatment{L})", "T", 0),
@@ -151,7 +153,9 @@ def swap_checks(d):
     from formulae import design_matrices
     out = []
     codings = ["f", "C(f)", "T(f, 'b')", "S(f)", "C(f, Sum)", "C(f, Treatment('c'))", "S(f, 'a')", "C(c1)", "C(o)"]
-    templates = ["y ~ {A}", "y ~ 0 + {A}", "y ~ {A} + x", "y ~ {A}:x", "y ~ x + {A}:x", "y ~ {A} + g", "y ~ {A}*x"]
+    templates = ["y ~ {A}", "y ~ 0 + {A}", "y ~ {A} + x", "y ~ {A}:x", "y ~ x + {A}:x", "y ~ {A} + g", "y ~ {A}*x",
+                 # a factor interacting with two numeric variables whose product is / is not a term of its own
+                 "y ~ x + z + x:z:{A}", "y ~ x + z + {A}:x:z", "y ~ x + z + x:z + x:z:{A}", "y ~ x:z + {A}:x:z"]
     for t in templates:
         try:
             base = np.asarray(design_matrices(t.format(A="f"), d).common.design_matrix, dtype=float).reshape(len(d), -1)
